@@ -6,7 +6,7 @@ import (
 )
 
 func init() {
-	register("C02", &propDriver{run: func(args [][]string) []string {
+	register("C02", &propDriver{teardown: c02AcctTeardown, run: func(args [][]string) []string {
 		switch ai(args[0][0]) {
 		case 1: // crypt.Fcrypt(pw, salt)
 			h, err := crypt.Fcrypt(ab(args[1]), ab(args[2]))
@@ -33,6 +33,10 @@ func init() {
 				return []string{"9"}
 			}
 			return c02concurrent(int(ai(args[1][0])), args[2:])
+		case 7: // a history of account operations through bbs.* / the gin handlers (c02_accounts.go)
+			return c02accounts(args[1:], false)
+		case 8: // the same history, the stored hashes observed through probe passwords instead of their bytes
+			return c02accounts(args[1:], true)
 		}
 		return []string{"9"}
 	}})
